@@ -34,6 +34,13 @@ def check_reader_calls(ctx, rep):
             if b.short not in allowed_fns:
                 rep.bad("R-WHOCALLS", "R-WHOCALLS:reader-call:%s:read_exact" % b.short, b.where(bi), "read_exact is called outside Scanner::make / Scanner::read_byte")
                 continue
+            # the reader must be the caller's own (the generic parameter, possibly behind references): an adaptor such as BufReader
+            # pulls input ahead of the token being decoded, so a row would be handed out only after bytes far behind it were consumed
+            targs = [x for x in c.get("targs", []) if not x.startswith("'")]
+            self_ty = re.sub(r"^(&(mut )?)+", "", targs[0]) if targs else "?"
+            if not re.fullmatch(r"[A-Z][A-Za-z0-9]*", self_ty):
+                rep.bad("R-WHOCALLS", "R-WHOCALLS:reader-call:%s:reader-type" % b.short, b.where(bi), "read_exact is called on %s, not on the caller's reader itself: a wrapper between the decoder and the input (buffering, limiting, chaining) changes how far the stream is consumed per token" % targs[:1])
+                continue
             # the buffer must be a [u8; 1]
             v = t["args"][1]
             pl = mir.op_place(v)
